@@ -219,9 +219,10 @@ class IneqProjectionWithVar(E2Contract):
 
     def configs(self, tier):
         out = [("1q", "state", 0, False), ("1q", "state", 0, True), ("1q", "povm", 2, True), ("1q", "povm", 2, False),
-               ("1q", "gate", 0, True), ("1q", "gate", 0, False), ("1q", "mprocess", 2, True), ("1q", "mprocess", 2, False)]
+               ("1q", "gate", 0, True), ("1q", "gate", 0, False), ("1q", "mprocess", 2, True), ("1q", "mprocess", 2, False),
+               ("1q", "mprocess", 3, True), ("1q", "povm", 3, True)]
         if tier == "thorough":
-            out += [("1qt", "state", 0, True), ("1q", "povm", 3, True)]
+            out += [("1qt", "state", 0, True), ("1q", "povm", 4, True), ("1q", "mprocess", 3, False)]
         return out
 
     def inputs(self, W, cfg, mk):
